@@ -53,10 +53,14 @@ func purePass(c *vh.Ctx) {
 		got := int64(hsms.VerifNextBackoffDelay(time.Duration(cur), m, time.Duration(ceil)))
 		line := vh.Join("B", fmt.Sprint(cur), bitsOf(m), fmt.Sprint(ceil), "|", fmt.Sprint(got))
 		c.Case(line, line, true)
-		valid := cur > 0 && ceil > 0 && !(m < 1.0)
+		// since /repo 67dfa20 the step bounds hold for EVERY multiplier (the clamp does not depend on
+		// the float product); "validated" only labels the histogram
+		valid := cur > 0 && ceil > 0
 		switch {
 		case !valid:
-			c.Count("B/outside-validated-config")
+			c.Count("B/non-positive-cur-or-ceil")
+		case m < 1.0:
+			c.Count("B/multiplier-below-1")
 		case cur > two53:
 			c.Count("B/cur>2^53")
 		default:
@@ -135,9 +139,9 @@ func purePass(c *vh.Ctx) {
 		}
 		line := vh.Join("Q", fmt.Sprint(init), bitsOf(m), fmt.Sprint(t5), fmt.Sprint(n), "|", strings.Join(strs, " "))
 		c.Case(line, line, true)
-		valid := init > 0 && t5 > 0 && !(m < 1.0)
+		valid := init > 0 && t5 > 0
 		if !valid {
-			c.Count("Q/outside-validated-config")
+			c.Count("Q/non-positive-init-or-T5")
 			return
 		}
 		tag := "within2p53"
